@@ -5,7 +5,6 @@ Line protocol of `Model/HeapCut.lean` (C18: histories that decode SHORT frames) 
 
   heapc.run <schema> (<opc>*)   →  (<result>*)      schema, result, view: as `heapd.run` (declared defaults allowed)
   opc ::= <op of heap.run> | (cutbuf b n)           `bytearray(buffer_b[:n])`: a new buffer holding the first n bytes of buffer b
-  heapc.witness                 →  the history of Witness/C18Short.lean in request syntax, printed from the Lean terms
 -/
 namespace NasdaqModel.Driver.HeapCutD
 open NasdaqModel Sexp Heap HeapCut
